@@ -88,4 +88,12 @@ var plans = map[string]plan{
 			"the file that textually contains a reference is known from the marker of the nearest enclosing generated object",
 		},
 	},
+	"C11": {
+		Quick:    []stage{enumStage(), rapidStage(800)},
+		Thorough: []stage{enumStage(), rapidStage(40_000)},
+		Rule:     "switch off: the hand-written base document with one hostile reference (12 base forms x {whole file, fragment}: relative, ./, ../ escapes, absolute path, file://, http(s)://, scheme-relative, percent-encoded dots, query) planted at every node of a referenceable kind (all positions of the document) x 4 entry points (LoadFromData, LoadFromDataWithPath, LoadFromURI, LoadFromFile), enumerated completely; plus docgen documents with 1-3 planted references. The reader serves the root for the root location and a valid decoy for every other URL and logs every request. switch on: fsgen multi-file layouts; every logged read must be the root or a file designated by a reference of a file already read. non-trivial (off) = the reference sits at a position other than a top-level component schema; (on) = a file was read that is reachable only through another external file. distinct = FNV-64a of the canonical case JSON.",
+		Assume: []string{
+			"observation point: Loader.ReadFromURIFunc; that every read goes through Loader.readURL (and so through this hook or DefaultReadFromURI) is a structural assumption read off the code",
+		},
+	},
 }
